@@ -1,17 +1,17 @@
 SPECIFICATION Spec
 CONSTANTS
-  Cap = 2
+  Cap = 1
   K = 2
   Types = {"a", "b"}
   Ctxs = {"c1"}
-  MaxEv = 4
-  MaxCrash = 2
-  MaxFlush = 2
-  MaxCompact = 2
-  Fix = {}
-  FlushCrash = {"start", "partial", "written", "published", "cleared"}
+  MaxEv = 5
+  MaxCrash = 1
+  MaxFlush = 1
+  MaxCompact = 3
+  Fix = {"prune-by-content", "replay-skips-published", "live-from-index", "reads-use-index", "alloc-past-wal", "replay-sorted-by-id", "alloc-fresh-dirs"}
+  FlushCrash = {}
   CompactCrash = {"out", "idx", "norecl"}
-  QuiescentCrash = TRUE
+  QuiescentCrash = FALSE
   CleanRestarts = TRUE
 INVARIANTS Durable NoForeign ReplayInOrder IndexedComplete FreshL0
 PROPERTIES CompactionPreserves PublishedImmutable
